@@ -53,6 +53,7 @@ NO_PANIC_EXACT = {
     "digest::CtOutput::<T>::into_bytes", "digest::generic_array::GenericArray::<T, N>::as_slice",
     "std::array::<impl [T; N]>::as_slice", "std::array::<impl [T; N]>::as_mut_slice",
     "std::array::<impl std::convert::AsMut<[T]> for [T; N]>::as_mut", "core::array::<impl std::convert::AsMut<[T]> for [T; N]>::as_mut",
+    "std::iter::from_fn", "core::iter::from_fn", "std::iter::Iterator::take", "<std::iter::Take<I> as std::iter::Iterator>::for_each", "std::mem::drop", "core::mem::drop",
     "std::array::equality::<impl std::cmp::PartialEq<[U; N]> for [T; N]>::eq", "std::array::equality::<impl std::cmp::PartialEq<[U; N]> for [T; N]>::ne",
     "std::cmp::PartialEq::ne", "std::cmp::PartialEq::eq",
     "std::cmp::impls::<impl std::cmp::PartialEq<&B> for &A>::eq", "std::cmp::impls::<impl std::cmp::PartialEq<&B> for &A>::ne",
